@@ -6,12 +6,26 @@ unknown nodes, (iii) random graphs up to 20 nodes under random renamings, (iv) t
 shipped model kind.  The property predicate (topological order, exact closures in order, refusal iff
 cyclic / self-referential / unknown / isolated, determinism) is evaluated on the implementation with an
 independent reachability computation.
+
+Hardening (after six rounds of seeded changes): every read view of the constructed graph (iteration, len, item access, direct
+children, per-type views, individual variable names), every public entry point (constructor, `from_dict` with real
+variable specifications, the two static methods with the path matrix, `dataclasses.replace`, copy / deepcopy / pickle, the
+graph of loaded models, `NamedVariables` collections assembled in several ways), every mapping type for the two arguments
+with different key orders, inconsistent key sets, name classes on which sort keys differ (numeric suffixes, prefixes, case,
+non-ASCII, blanks, the empty name, long common prefixes) with a renaming-invariance predicate, and graph shapes / sizes
+beyond the random family (complete DAGs, stars, layers, trees, ladders, many components, 64..150 nodes).
 """
 from __future__ import annotations
 
+import collections
+import copy
+import dataclasses
 import itertools
 import json
+import pickle
+import types
 import warnings
+import zlib
 
 from . import core
 from .core import fmt_list, split_ne
@@ -41,6 +55,25 @@ MODEL_KINDS = [
     ("joint", dict(dimension=1)),
     ("mixture_logistic", dict(dimension=3, source_dimension=2, n_clusters=2)),
 ]
+# further configurations (quick: a sample of four per run; thorough: all)
+MORE_MODEL_KINDS = [
+    ("logistic", dict(dimension=4, source_dimension=0)),
+    ("logistic", dict(dimension=12, source_dimension=3)),
+    ("logistic", dict(dimension=2, source_dimension=1, obs_models="gaussian-diagonal")),
+    ("linear", dict(dimension=3, source_dimension=2, obs_models="gaussian-scalar")),
+    ("linear", dict(dimension=2, source_dimension=1, obs_models="bernoulli")),
+    ("linear", dict(dimension=4, source_dimension=0)),
+    ("shared_speed_logistic", dict(dimension=2, source_dimension=1)),
+    ("shared_speed_logistic", dict(dimension=4, source_dimension=0)),
+    ("shared_speed_logistic", dict(dimension=3, source_dimension=2, obs_models="gaussian-scalar")),
+    ("joint", dict(dimension=3, source_dimension=2)),
+    ("joint", dict(dimension=2, source_dimension=1, obs_models=("gaussian-scalar", "weibull-right-censored"))),
+    ("joint", dict(dimension=2, source_dimension=1, obs_models=("gaussian-diagonal", "weibull-right-censored-with-sources"))),
+    ("joint", dict(dimension=2, source_dimension=1, nb_events=2)),
+    ("mixture_logistic", dict(dimension=3, source_dimension=2, n_clusters=3)),
+    ("mixture_logistic", dict(dimension=2, source_dimension=1, n_clusters=2)),
+    ("mixture_logistic", dict(dimension=4, source_dimension=0, n_clusters=2)),
+]
 
 
 def _imports():
@@ -55,11 +88,30 @@ class _V:  # stand-in variable spec (only its type is used by the DAG, for strat
     pass
 
 
+class _W(_V):  # a subclass: the per-type views are keyed by the exact type
+    pass
+
+
+class _U:
+    pass
+
+
+def make_vars(names):
+    """name -> stand-in specification; the kind is a stable function of the name (no generator draw): 4/8 `_V`, 2/8 its
+    subclass `_W`, 1/8 `_U`, 1/8 a real (uninitialised) `IndividualLatentVariable`."""
+    from leaspy.variables.specs import IndividualLatentVariable
+    out = {}
+    for n in names:
+        k = zlib.crc32(n.encode("utf-8")) % 8
+        out[n] = _V() if k < 4 else _W() if k < 6 else _U() if k == 6 else object.__new__(IndividualLatentVariable)
+    return out
+
+
 def run_impl(env, names, anc, insertion_order=None):
     """names: list of node names; anc: dict name -> set of names. Returns canonical outcome."""
     VariablesDAG, LIE = env
     order = insertion_order or names
-    variables = {n: _V() for n in order}
+    variables = make_vars(order)
     direct = {n: frozenset(anc[n]) for n in order}
     try:
         dag = VariablesDAG(variables, direct_ancestors=direct)
@@ -112,6 +164,458 @@ def definitions_untouched(env, names, anc, kind):
         except Exception as e:  # noqa
             fails.append(f"a second construction from the same definitions is refused: {type(e).__name__}: {str(e)[:100]}")
     return fails
+
+
+# ----------------------------------------------------------------- hardening: views, entry points, containers
+def tables(dag, names):
+    return ("ok", tuple(dag.sorted_variables_names), {n: tuple(dag.sorted_children[n]) for n in names},
+            {n: tuple(dag.sorted_ancestors[n]) for n in names})
+
+
+AUTOMATIC = ("nll_regul_ind_sum_ind", "nll_regul_ind_sum")
+
+
+def _same(a, b, name):
+    """The very object of the definitions; the two automatic variables of a `NamedVariables` collection are made anew at
+    every access: for them, same type and same dependencies."""
+    if a is b:
+        return True
+    return name in AUTOMATIC and type(a) is type(b) and a.get_ancestors_names() == b.get_ancestors_names()
+
+
+def view_failures(dag, names, anc, variables):
+    """Every way of reading the constructed graph tells the same story as `sorted_variables_names` / the definitions."""
+    from leaspy.variables.specs import IndividualLatentVariable
+    fails = []
+    variables = {n: variables[n] for n in names}
+    try:
+        order = tuple(dag.sorted_variables_names)
+        if tuple(iter(dag)) != order or tuple(dag.keys()) != order:
+            fails.append(f"iterating the graph gives {tuple(iter(dag))[:6]}…, not its order {order[:6]}…")
+        if len(dag) != len(names):
+            fails.append(f"len(graph) = {len(dag)} for {len(names)} variables")
+        if any(not _same(dag[n], variables[n], n) for n in names) or any(not _same(v, variables[n], n) for v, n in zip(dag.values(), order)) \
+                or len(list(dag.values())) != len(order) or [k for k, _ in dag.items()] != list(order):
+            fails.append("graph[name] / values() / items() do not give the variables of the definitions in graph order")
+        if any(n not in dag for n in names) or "\x00no such variable" in dag:
+            fails.append("membership test of the graph is wrong")
+        want_children = {n: frozenset(m for m in names if n in anc[m]) for n in names}
+        got_children = {n: frozenset(v) for n, v in dag.direct_children.items()}
+        if got_children != want_children:
+            bad = [n for n in names if got_children.get(n) != want_children[n]][:3]
+            fails.append(f"direct dependents of {bad}: {[sorted(got_children.get(n, ['<missing>'])) for n in bad]} != "
+                         f"{[sorted(want_children[n]) for n in bad]}")
+        by_type = dag.sorted_variables_by_type
+        want_types = {}
+        for n in order:
+            want_types.setdefault(type(variables[n]), []).append(n)
+        if set(by_type.keys()) != set(want_types):
+            fails.append(f"per-type views exist for {sorted(t.__name__ for t in by_type)} but the variables have exactly the types "
+                         f"{sorted(t.__name__ for t in want_types)}")
+        else:
+            for t, want in want_types.items():
+                view = by_type[t]
+                if tuple(view) != tuple(want) or tuple(view.keys()) != tuple(want):
+                    fails.append(f"view of the {t.__name__} variables lists {tuple(view)[:6]}, expected (graph order) {tuple(want)[:6]}")
+                    continue
+                if len(view) != len(want) or any(not _same(view[n], variables[n], n) for n in want) \
+                        or any(not _same(v, variables[n], n) for v, n in zip(view.values(), want)):
+                    fails.append(f"view of the {t.__name__} variables: len / item access / values() inconsistent with its keys")
+                other = next((n for n in order if n not in want), None)
+                if other is not None:
+                    try:
+                        view[other]
+                        fails.append(f"view of the {t.__name__} variables gives access to {other!r} which is a {type(variables[other]).__name__}")
+                    except KeyError:
+                        pass
+                    if other in view:
+                        fails.append(f"view of the {t.__name__} variables claims to contain {other!r}")
+        want_ind = tuple(n for n in order if type(variables[n]) is IndividualLatentVariable)
+        if tuple(dag.individual_variable_names) != want_ind:
+            fails.append(f"individual_variable_names = {tuple(dag.individual_variable_names)[:6]}, expected (graph order) {want_ind[:6]}")
+    except Exception as e:  # noqa
+        fails.append(f"a view of the constructed graph cannot be read: {type(e).__name__}: {str(e)[:120]}")
+    return fails
+
+
+class _FrozenMap(collections.abc.Mapping):
+    """A read-only mapping that is not a dict (keys in the given order)."""
+
+    def __init__(self, items):
+        self._d = dict(items)
+
+    def __getitem__(self, k):
+        return self._d[k]
+
+    def __iter__(self):
+        return iter(self._d)
+
+    def __len__(self):
+        return len(self._d)
+
+
+MAPPING_KINDS = ("dict", "ordered", "proxy", "mapping", "defaultdict", "chainmap")
+
+
+def as_mapping(kind, items):
+    items = list(items)
+    if kind == "dict":
+        return dict(items)
+    if kind == "ordered":
+        return collections.OrderedDict(items)
+    if kind == "proxy":
+        return types.MappingProxyType(dict(items))
+    if kind == "mapping":
+        return _FrozenMap(items)
+    if kind == "defaultdict":
+        d = collections.defaultdict(frozenset)
+        d.update(items)
+        return d
+    if kind == "chainmap":
+        h = len(items) // 2
+        return collections.ChainMap(dict(items[:h]), dict(items[h:]))
+    raise ValueError(kind)
+
+
+def container_failures(env, names, anc, res, rng):
+    """The two arguments are mappings: any mapping type, each with its own key order, gives the graph of the definitions."""
+    VariablesDAG, _ = env
+    fails = []
+    variables = make_vars(names)
+    # (a defaultdict is a natural way to collect dependency sets; as the mapping of the variables it would grow on look-ups)
+    kv, ka = rng.choice([k for k in MAPPING_KINDS if k != "defaultdict"]), rng.choice(MAPPING_KINDS)
+    o1, o2 = names[:], names[:]
+    rng.shuffle(o1)
+    rng.shuffle(o2)
+    if o1 == o2 and len(names) > 1:
+        o2 = o2[::-1]
+    mk = rng.choice([frozenset, frozenset, set])
+    try:
+        dag = VariablesDAG(as_mapping(kv, [(n, variables[n]) for n in o1]),
+                           direct_ancestors=as_mapping(ka, [(n, mk(anc[n])) for n in o2]))
+        got = tables(dag, names)
+    except Exception as e:  # noqa
+        return [f"accepted definitions refused when the variables come as {kv} (order {o1[:5]}…) and the dependencies as {ka} "
+                f"(order {o2[:5]}…): {type(e).__name__}: {str(e)[:100]}"]
+    if got != res:
+        fails.append(f"another graph when the variables come as {kv} (order {o1[:5]}…) and the dependencies as {ka} (order {o2[:5]}…)")
+    fails += view_failures(dag, names, anc, variables)[:2]
+    return fails
+
+
+def entry_point_failures(env, names, anc, res, rng):
+    """Every public way to the construction gives the graph the constructor gives (accepted definitions)."""
+    import torch
+    from leaspy.utils.functional import Sum
+    from leaspy.variables.specs import DataVariable, LinkedVariable
+    VariablesDAG, _ = env
+    fails = []
+    _, order, ch, an = res
+    _, desc = reach(names, anc)
+    # (1) the static methods, called the way `_compute_topological_orders` calls them, but with the caller's own mappings
+    sh = names[:]
+    rng.shuffle(sh)
+    children = {n: frozenset(m for m in names if n in anc[m]) for n in sh}
+    direct = {n: rng.choice([frozenset, set])(anc[n]) for n in names[::-1]}
+    try:
+        so, pm = VariablesDAG.compute_topological_order_and_path_matrix(children, direct)
+        if tuple(so) != tuple(order):
+            fails.append(f"compute_topological_order_and_path_matrix gives the order {tuple(so)[:8]}…, the constructor {tuple(order)[:8]}…")
+        else:
+            want = [[order[j] in desc[order[i]] for j in range(len(order))] for i in range(len(order))]
+            if pm.dtype != torch.bool or tuple(pm.shape) != (len(order), len(order)) or pm.tolist() != want:
+                bad = [(order[i], order[j]) for i in range(len(order)) for j in range(len(order))
+                       if tuple(pm.shape) == (len(order), len(order)) and bool(pm[i, j]) != want[i][j]][:3]
+                fails.append(f"path matrix is not the reachability relation in graph order (first differing pairs {bad})")
+            sc, sa = VariablesDAG.compute_sorted_children_and_ancestors(tuple(so), pm)
+            if {n: tuple(v) for n, v in sc.items()} != ch or {n: tuple(v) for n, v in sa.items()} != an:
+                fails.append("compute_sorted_children_and_ancestors disagrees with the tables of the constructed graph")
+        if any(set(direct[n]) != set(anc[n]) for n in names):
+            fails.append("compute_topological_order_and_path_matrix modified the caller's dependency sets")
+    except Exception as e:  # noqa
+        fails.append(f"static construction refused accepted definitions: {type(e).__name__}: {str(e)[:100]}")
+    # (2) from_dict on real variable specifications (dependencies inferred from the functions)
+    ins = names[:]
+    rng.shuffle(ins)
+    specs = {n: (LinkedVariable(Sum(*rng.sample(sorted(anc[n]), len(anc[n])))) if anc[n] else DataVariable()) for n in ins}
+    try:
+        d2 = VariablesDAG.from_dict(rng.choice([dict, collections.OrderedDict, types.MappingProxyType, _FrozenMap])(dict(specs)))
+        if tables(d2, names) != res:
+            fails.append("from_dict on LinkedVariable / DataVariable specifications gives another graph than the constructor")
+        fails += view_failures(d2, names, anc, specs)[:2]
+        d3 = VariablesDAG.from_dict(d2)          # the graph itself is a mapping name -> specification
+        if tables(d3, names) != res:
+            fails.append("from_dict(graph) gives another graph than the graph")
+    except Exception as e:  # noqa
+        fails.append(f"from_dict refused accepted definitions: {type(e).__name__}: {str(e)[:100]}")
+    # (3) copies of the constructed graph; replacement of the definitions
+    variables = make_vars(names)
+    try:
+        dag = VariablesDAG(variables, direct_ancestors={n: frozenset(anc[n]) for n in names})
+        for how, cp in (("copy", copy.copy), ("deepcopy", copy.deepcopy), ("pickle", lambda d: pickle.loads(pickle.dumps(d)))):
+            c = cp(dag)
+            if tables(c, names) != res or {n: set(v) for n, v in c.direct_ancestors.items()} != {n: set(anc[n]) for n in names}:
+                fails.append(f"{how} of the graph reports another order / other tables")
+            else:
+                fails += [f"{how} of the graph: {f}" for f in view_failures(c, names, anc, c.variables if how != "copy" else variables)[:1]]
+        # the reversed definitions (every edge turned round) are acyclic and isolated-free too
+        rev = {n: frozenset(m for m in names if n in anc[m]) for n in names}
+        r = dataclasses.replace(dag, direct_ancestors=rev)
+        got = tables(r, names)
+        pf, _ = predicate(names, {n: set(v) for n, v in rev.items()}, got)
+        if pf:
+            fails.append("dataclasses.replace(graph, direct_ancestors=reversed edges): " + pf[0])
+        elif got != tables(VariablesDAG(make_vars(names), direct_ancestors=rev), names):
+            fails.append("dataclasses.replace(graph, direct_ancestors=…) differs from a fresh construction")
+        if tables(dag, names) != res:
+            fails.append("the graph changed after copies / a replacement were made from it")
+    except Exception as e:  # noqa
+        fails.append(f"copy / deepcopy / pickle / replace of an accepted graph raised {type(e).__name__}: {str(e)[:100]}")
+    return fails
+
+
+def refusal_entry_point_failures(env, names, anc, res, why):
+    """Refused definitions are refused the same way through `from_dict` on real specifications; a cyclic graph is refused by
+    the static method too."""
+    from leaspy.utils.functional import Sum
+    from leaspy.variables.specs import DataVariable, LinkedVariable
+    VariablesDAG, LIE = env
+    fails = []
+    specs = {n: (LinkedVariable(Sum(*sorted(anc[n]))) if anc[n] else DataVariable()) for n in names}
+    try:
+        VariablesDAG.from_dict(specs)
+        got = "ok"
+    except LIE:
+        got = "err:input"
+    except ValueError:
+        got = "err:value"
+    except Exception as e:  # noqa
+        got = f"err:other:{type(e).__name__}"
+    if got != res[0]:
+        fails.append(f"from_dict on real specifications answers {got}, the constructor {res[0]}")
+    if why["cyclic"] and not (why["unknown"] or why["selfloop"]):
+        children = {n: frozenset(m for m in names if n in anc[m]) for n in names}
+        try:
+            VariablesDAG.compute_topological_order_and_path_matrix(children, {n: frozenset(anc[n]) for n in names})
+            fails.append("compute_topological_order_and_path_matrix accepts cyclic definitions")
+        except ValueError:
+            pass
+        except Exception as e:  # noqa
+            fails.append(f"compute_topological_order_and_path_matrix on cyclic definitions raised {type(e).__name__}")
+    return fails
+
+
+def inconsistent_key_failures(env, names, anc, rng):
+    """A variable without an entry of dependencies, or an entry for something that is not a variable: refused (deliberately:
+    input or value error), whatever else is in the definitions."""
+    VariablesDAG, LIE = env
+    fails = []
+    variables = make_vars(names)
+    direct = {n: frozenset(anc[n]) for n in names}
+    victim = rng.choice(names)
+    trials = {
+        "a variable has no entry of dependencies": (variables, {n: v for n, v in direct.items() if n != victim}),
+        "an entry of dependencies belongs to no variable": ({n: v for n, v in variables.items() if n != victim}, direct),
+        "an extra entry of dependencies (without any) belongs to no variable": (variables, dict(direct, **{"\x7fextra": frozenset()})),
+        "an extra variable has no entry of dependencies": (dict(variables, **{"\x7fextra": _V()}), direct),
+    }
+    for what, (v, d) in trials.items():
+        try:
+            VariablesDAG(v, direct_ancestors=d)
+            fails.append(f"definitions accepted although {what} ({victim!r})")
+        except (LIE, ValueError):
+            pass
+        except Exception as e:  # noqa
+            fails.append(f"definitions in which {what} ({victim!r}) are not refused deliberately but abort with {type(e).__name__}: {str(e)[:80]}")
+    children = {n: frozenset(m for m in names if n in anc[m]) for n in names}
+    try:
+        VariablesDAG.compute_topological_order_and_path_matrix({n: c for n, c in children.items() if n != victim}, direct)
+        fails.append("compute_topological_order_and_path_matrix accepts tables of dependents and dependencies over different variables")
+    except ValueError:
+        pass
+    except Exception as e:  # noqa
+        fails.append(f"compute_topological_order_and_path_matrix with tables over different variables aborts with {type(e).__name__}")
+    return fails
+
+
+def renaming_failures(env, names, anc, res):
+    """Documented: 'input nodes are sorted by name' — the names matter through their (python string) order only.  The same
+    definitions under an order-preserving renaming must give the same graph up to that renaming."""
+    ranked = sorted(names)
+    new = {n: f"n{i:05d}" for i, n in enumerate(ranked)}
+    names2 = [new[n] for n in names]
+    anc2 = {new[n]: {new.get(a, a) for a in anc[n]} for n in names}
+    res2 = run_impl(env, names2, anc2)
+    if res2[0] != res[0]:
+        return [f"order-preserving renaming {dict(list(new.items())[:4])}… changes the outcome {res[0]} -> {res2[0]}"]
+    if res[0] != "ok":
+        return []
+    back = {v: k for k, v in new.items()}
+    if tuple(back.get(x, x) for x in res2[1]) != res[1]:
+        return [f"the order {res[1][:8]}… becomes {tuple(back.get(x, x) for x in res2[1])[:8]}… under an order-preserving renaming "
+                f"of the variables (to n00000, n00001, … in sorted order)"]
+    for n in names:
+        if tuple(back.get(x, x) for x in res2[2][new[n]]) != res[2][n] or tuple(back.get(x, x) for x in res2[3][new[n]]) != res[3][n]:
+            return [f"dependents / dependencies of {n!r} change under an order-preserving renaming of the variables"]
+    return []
+
+
+def ambient_failures(env, names, anc, res):
+    """Process state: the ambient torch default dtype has no bearing on a graph."""
+    import torch
+    old = torch.get_default_dtype()
+    torch.set_default_dtype(torch.float64)
+    try:
+        res2 = run_impl(env, names, anc)
+    finally:
+        torch.set_default_dtype(old)
+    return [] if res2 == res else ["another result under torch.set_default_dtype(torch.float64)"]
+
+
+def lean_units(names, anc):
+    """Rough cost of one request in the (interpreted, closure-chained) Lean model: look-ups of a column walk the chain of edge
+    relaxations and, per incoming edge, the column of the source.  ~1e7 units per second."""
+    s = set(names)
+    if any(a not in s or a == n for n in names for a in anc[n]):
+        return 0
+    e = sum(len(anc[n]) for n in names)
+    cost, todo, left = {}, [n for n in names if not anc[n]], {n: set(anc[n]) for n in names}
+    kids = {n: [] for n in names}
+    for m in names:
+        for a in anc[m]:
+            kids[a].append(m)
+    while todo:
+        n = todo.pop()
+        cost[n] = e + sum(cost[a] for a in anc[n])
+        for m in kids[n]:
+            left[m].discard(n)
+            if not left[m]:
+                todo.append(m)
+    if len(cost) < len(names):
+        return e * e
+    return 3 * len(names) * sum(cost.values())
+
+
+# ----------------------------------------------------------------- hardening: NamedVariables collections
+def synthetic_collection(rng):
+    """Definitions of a small model-like collection, in a listing order in which a latent variable may come before the
+    parameters of its prior: (name, ("data",) | ("ind"|"pop", mean, std) | ("link", dep, …))."""
+    n_ind = rng.choice([1, 1, 2, 3, 5])
+    n_pop = rng.choice([0, 1, 2])
+    pool = ["xi", "tau", "sources", "z9", "z10", "Z9", "a", "a_", "zeta_b", "é", "w 1"]
+    lat = rng.sample(pool, n_ind + n_pop)
+    defs, explicit = [], []
+    for i, z in enumerate(lat):
+        m, s_ = f"{z}_mean", f"{z}_std"
+        defs += [(m, ("data",)), (s_, ("data",)), (z, ("ind" if i < n_ind else "pop", m, s_))]
+        explicit += [m, s_, z]
+    for j in range(rng.randrange(0, 5)):
+        deps = rng.sample(explicit, rng.randrange(1, min(4, len(explicit)) + 1))
+        name = f"link{j}" if rng.random() < 0.7 else f"L{j}k"
+        defs.append((name, ("link",) + tuple(sorted(deps))))
+        explicit.append(name)
+    rng.shuffle(defs)
+    return defs
+
+
+def build_spec(d):
+    from leaspy.utils.functional import Sum
+    from leaspy.variables.distributions import Normal
+    from leaspy.variables.specs import DataVariable, IndividualLatentVariable, LinkedVariable, PopulationLatentVariable
+    if d[0] == "data":
+        return DataVariable()
+    if d[0] == "ind":
+        return IndividualLatentVariable(Normal(d[1], d[2]))
+    if d[0] == "pop":
+        return PopulationLatentVariable(Normal(d[1], d[2]))
+    return LinkedVariable(Sum(*d[1:]))
+
+
+def assemble(defs, how, cut=None):
+    from leaspy.variables.specs import NamedVariables
+    items = [(n, build_spec(d)) for n, d in defs]
+    if how == "ctor":
+        return NamedVariables(dict(items))
+    if how == "pairs":
+        return NamedVariables(items)
+    nv = NamedVariables()
+    if how == "setitem":
+        for n, v in items:
+            nv[n] = v
+    elif how == "update":
+        nv.update(dict(items))
+    elif how == "instalments":
+        nv.update(dict(items[:cut]))
+        list(nv.items())
+        _ = dict(nv), len(nv), [nv[k] for k in nv]
+        for n, v in items[cut:]:
+            nv[n] = v
+    else:
+        raise ValueError(how)
+    return nv
+
+
+ASSEMBLIES = ("ctor", "pairs", "setitem", "update", "instalments")
+
+
+def collection_case(chk, env, defs, how, cut, expect=None):
+    """One `NamedVariables` collection: graph of `from_dict` = the expected definitions; reserved / used names refused and
+    without effect.  Returns (names, anc) of the graph for the model comparison, or None."""
+    VariablesDAG, _ = env
+    case = {"collection": [[n, list(d)] for n, d in defs], "assembled": how, "cut": cut}
+    if expect is None:
+        expect = expected_collection(defs)
+    try:
+        nv = assemble(defs, how, cut)
+        before = list(nv)
+        # refused names: a reserved word, an automatic variable, a name in use, an implicit companion
+        from leaspy.variables.specs import DataVariable
+        taken = [n for n in expect if n.startswith("nll_regul_") and n not in ("nll_regul_ind_sum_ind", "nll_regul_ind_sum")]
+        for bad in ("state", "sum", "nll_regul_ind_sum", defs[0][0], taken[0]):
+            try:
+                nv[bad] = DataVariable()
+                chk.impl_failure(case, f"the collection accepts a definition under the name {bad!r} (reserved, automatic or in use)")
+            except ValueError:
+                pass
+        if list(nv) != before or len(nv) != len(before):
+            chk.impl_failure(case, "a refused definition changed the collection")
+        dag = VariablesDAG.from_dict(nv)
+        got = {n: set(v) for n, v in dag.direct_ancestors.items()}
+    except Exception as e:  # noqa
+        chk.impl_failure(case, f"collection of valid definitions ({how}) cannot be turned into a graph: {type(e).__name__}: {str(e)[:140]}")
+        return None
+    if got != expect:
+        miss, extra = sorted(set(expect) - set(got)), sorted(set(got) - set(expect))
+        wrong = [n for n in expect if n in got and got[n] != expect[n]][:3]
+        chk.impl_failure(case, f"graph of the collection ({how}): missing variables {miss[:4]}, unexpected {extra[:4]}, "
+                               f"dependencies of {wrong}: {[sorted(got[n]) for n in wrong]} != {[sorted(expect[n]) for n in wrong]}")
+        return None
+    names = list(dag.variables.keys())
+    if sorted(names) != sorted(expect) or len(nv) != len(expect) or sorted(nv.keys()) != sorted(expect):
+        chk.impl_failure(case, f"the collection lists {len(nv)} variables {sorted(nv.keys())[:5]}…, its graph has {len(expect)}")
+    anc = {n: set(expect[n]) for n in names}
+    for f in predicate(names, anc, tables(dag, names))[0][:2] + view_failures(dag, names, anc, dag.variables)[:2]:
+        chk.impl_failure(case, f"graph of the collection ({how}): {f}")
+    return names, anc
+
+
+def expected_collection(defs):
+    expect = {}
+    ind = []
+    for n, d in defs:
+        if d[0] == "link":
+            expect[n] = set(d[1:])
+            continue
+        expect[n] = set()
+        if d[0] == "ind":
+            ind.append(n)
+            expect[f"nll_regul_{n}_ind"] = {n, d[1], d[2]}
+            expect[f"nll_regul_{n}"] = {f"nll_regul_{n}_ind"}
+        elif d[0] == "pop":
+            expect[f"nll_regul_{n}"] = {n, d[1], d[2]}
+    expect["nll_regul_ind_sum_ind"] = {f"nll_regul_{z}_ind" for z in ind}
+    expect["nll_regul_ind_sum"] = {"nll_regul_ind_sum_ind"}
+    return expect
 
 
 def reach(names, anc):
@@ -261,12 +765,202 @@ def random_graph(rng, kmax=20):
     return names, anc, kind
 
 
-def model_graphs():
+# ----------------------------------------------------------------- hardening: name classes and graph shapes
+NAME_POOLS = {
+    # numeric suffixes: lexicographic order differs from numeric ("v10" < "v9") and from zero-padded order
+    "numeric": [f"{st}{i}" for st in ("v", "x_", "S") for i in list(range(0, 13)) + [19, 20, 21, 99, 100, 101]] + ["v007", "v07", "v0010"],
+    # one name a prefix of another; "_" sorts after upper-case and before lower-case letters
+    "prefix": ["".join(t) for k in (1, 2, 3, 4) for t in itertools.product("aB_", repeat=k)],
+    "unicode": sorted({"\u00e9", "e", "E", "\u00c9", "\u00df", "ss", "\u03a9", "\u03c9", "z", "Z", "\u4e2d", "\u65e5\u672c", "\u00e1",
+                       "a\u0301", "\u00f1", "n", "~", "_", "\u0131", "i", "I", "\u0130", "\u03c3", "\u03c2", "\u03a3", "\u03b1",
+                       "\U0001d6fc", "\u01c6", "\u01c4", "\u01c5", "\ufb01", "fi", "K", "\u212a"}),
+    "blank": ["", " ", "  ", "a", " a", "a ", "a b", "a.b", "a-b", "a_b", "\t", "a\tb", "a\nb", "0", "-1", "1.5", "a,b", "a;b", "(a)",
+              "[0]", "'", '"', "\\", "/"],
+    "long": ["nll_regul_" * 20 + sfx for sfx in ("", "a", "b", "ind", "ind_sum", "_", "A", "0", "00", "a" * 50, "a" * 49 + "b", "z")],
+}
+
+
+def pool_names(rng, k, fam):
+    pool = NAME_POOLS[fam]
+    return rng.sample(pool, min(k, len(pool)))
+
+
+def hidden_order_dag(rng, names, p):
+    perm = names[:]
+    rng.shuffle(perm)
+    anc = {n: set() for n in names}
+    for i in range(len(perm)):
+        for j in range(i + 1, len(perm)):
+            if rng.random() < p:
+                anc[perm[j]].add(perm[i])
+    # no isolated variable: attach it to a random other one (keeps the hidden order)
+    for i, n in enumerate(perm):
+        if not anc[n] and not any(n in anc[m] for m in names) and len(perm) > 1:
+            j = rng.choice([x for x in range(len(perm)) if x != i])
+            lo, hi = min(i, j), max(i, j)
+            anc[perm[hi]].add(perm[lo])
+    return anc
+
+
+def shape_graphs(rng, thorough):
+    """(tag, names, anc): shapes and sizes the random family does not reach.  Labels are non-padded numeric names in a random
+    assignment, so that name order, numeric order and graph order all differ."""
+    def labels(n):
+        pool = [f"{st}{i}" for st in ("v", "w_") for i in range(n)]
+        return rng.sample(pool, n)
+
+    def finish(tag, names, edges):
+        anc = {n: set() for n in names}
+        for a, b in edges:
+            anc[names[b]].add(names[a])
+        return tag, names, anc
+
+    out = []
+    for k in ([5, 9, 10, 12] + ([13, 14] if thorough else [])):
+        out.append(finish(f"shape-complete{k}", labels(k), [(a, b) for a in range(k) for b in range(a + 1, k)]))
+    for n in ([33, 100] + ([150] if thorough else [])):
+        out.append(finish(f"shape-star-out{n}", labels(n + 1), [(0, b) for b in range(1, n + 1)]))
+        out.append(finish(f"shape-star-in{n}", labels(n + 1), [(b, 0) for b in range(1, n + 1)]))
+    for a, b in ([(3, 3), (12, 12)] + ([(30, 40)] if thorough else [])):
+        out.append(finish(f"shape-bipartite{a}x{b}", labels(a + b), [(i, a + j) for i in range(a) for j in range(b)]))
+    for layers, w in ([(4, 6), (8, 9)] + ([(12, 12)] if thorough else [])):
+        names = labels(layers * w)
+        edges = []
+        for l in range(1, layers):
+            for j in range(w):
+                srcs = [i for i in range(w) if rng.random() < 0.4] or [rng.randrange(w)]
+                edges += [((l - 1) * w + i, l * w + j) for i in srcs]
+        for i in range(w):   # every first-layer node feeds something
+            if not any(a == i for a, _ in edges):
+                edges.append((i, w + rng.randrange(w)))
+        out.append(finish(f"shape-layers{layers}x{w}", names, edges))
+    for depth in ([5, 6] + ([7] if thorough else [])):
+        n = 2 ** (depth + 1) - 1
+        out.append(finish(f"shape-tree-out{n}", labels(n), [((b - 1) // 2, b) for b in range(1, n)]))
+        out.append(finish(f"shape-tree-in{n}", labels(n), [(b, (b - 1) // 2) for b in range(1, n)]))
+    for n in ([12, 30, 66] + ([130] if thorough else [])):
+        out.append(finish(f"shape-ladder{n}", labels(n), [(b - d, b) for b in range(1, n) for d in (1, 2) if b - d >= 0]))
+    for n in ([40, 70] + ([130, 200] if thorough else [])):
+        out.append(finish(f"shape-chain{n}", labels(n), [(b - 1, b) for b in range(1, n)]))
+    for m in ([2, 40] + ([75] if thorough else [])):
+        names = labels(2 * m)
+        out.append(finish(f"shape-pairs{m}", names, [(2 * i, 2 * i + 1) for i in range(m)]))
+        names = labels(4 * m)
+        out.append(finish(f"shape-diamonds{m}", names, [e for i in range(m) for e in ((4 * i, 4 * i + 1), (4 * i, 4 * i + 2), (4 * i + 1, 4 * i + 3), (4 * i + 2, 4 * i + 3))]))
+    for n in ([63, 64, 65, 100] + ([128, 129, 150, 257] if thorough else [])):
+        names = labels(n)
+        perm = list(range(n))
+        rng.shuffle(perm)
+        edges = []
+        for pos in range(1, n):
+            for a in rng.sample(perm[:pos], min(pos, rng.choice([1, 1, 2, 3]))):
+                edges.append((a, perm[pos]))
+        out.append(finish(f"shape-sparse{n}", names, edges))
+        # the same with one edge turned round far apart (a long cycle) -> refused
+        if n in (65, 129):
+            a, b = perm[0], perm[-1]
+            out.append(finish(f"shape-sparse{n}-cycle", names, edges + [(b, a)] + ([(a, perm[1]), (perm[1], b)] if n == 65 else [])))
+    return out
+
+
+def family_graphs(rng, thorough):
+    """Random graphs (hidden order, optional defect) whose names come from one of the name classes."""
+    out = []
+    for fam in NAME_POOLS:
+        for _ in range(40 if thorough else 7):
+            k = rng.randrange(2, 13)
+            names = pool_names(rng, k, fam)
+            anc = hidden_order_dag(rng, names, rng.choice([0.15, 0.3, 0.6]))
+            kind = "dag"
+            r = rng.random()
+            if r < 0.12 and len(names) > 2:
+                a, b = rng.sample(names, 2)
+                anc[a].add(b)
+                anc[b].add(a)
+                kind = "cycle"
+            out.append((f"names-{fam}-{kind}", names, anc))
+    return out
+
+
+def loaded_model_graphs(chk):
+    """The graph a loaded model carries (`model.dag`): (file, names, anc, dag)."""
+    import leaspy.models  # noqa
+    from leaspy.models import BaseModel
+    d = core.REPO / "tests/_data/model_parameters/from_fit"
+    files = sorted(p for p in d.glob("*.json"))
+    if chk.tier != "thorough":
+        files = chk.rng.sample(files, min(6, len(files)))
+    out = []
+    for p in files:
+        try:
+            with core.quiet():
+                m = BaseModel.load(str(p))
+            dag = m.dag
+        except Exception:  # noqa  (benchmark models carry no graph; an unreadable file is not this property's matter)
+            chk.tag("loaded_model_without_graph", p.stem)
+            continue
+        names = list(dag.variables.keys())
+        out.append((p.stem, names, {n: set(dag.direct_ancestors[n]) for n in names}, dag))
+    return out
+
+
+def proxy_cases(chk, n):
+    """`FilteredMappingProxy` (the per-type views of the graph) on its own: an ordered read-only window on a mapping."""
+    from leaspy.utils.filtered_mapping_proxy import FilteredMappingProxy
+    rng = chk.rng
+    for _ in range(n):
+        keys = [random_name(rng, set()) for _ in range(rng.randrange(0, 8))]
+        keys = list(dict.fromkeys(keys))
+        mapping = {k: object() for k in keys}
+        subset = tuple(rng.sample(keys, rng.randrange(0, len(keys) + 1)))
+        kind = rng.choice(["ok", "ok", "duplicate", "unknown", "unknown-unchecked"])
+        case = {"proxy": kind, "keys": keys, "subset": list(subset)}
+        try:
+            if kind == "duplicate" and subset:
+                sub = subset + (rng.choice(subset),)
+                try:
+                    FilteredMappingProxy(mapping, subset=sub)
+                    chk.impl_failure(case, f"a view with the key {sub[-1]!r} listed twice is accepted")
+                except ValueError:
+                    pass
+            elif kind == "unknown":
+                try:
+                    FilteredMappingProxy(mapping, subset=subset + ("\x7fnot a key",))
+                    chk.impl_failure(case, "a view on a key the mapping does not have is accepted")
+                except ValueError:
+                    pass
+            else:
+                sub = subset + (("\x7fnot a key",) if kind == "unknown-unchecked" else ())
+                v = FilteredMappingProxy(mapping, subset=sub, **({"check_keys": False} if kind == "unknown-unchecked" else {}))
+                bad = []
+                if tuple(v) != sub or len(v) != len(sub) or tuple(v.keys()) != sub:
+                    bad.append(f"lists {tuple(v)} for the subset {sub}")
+                if any(v[k] is not mapping[k] for k in subset):
+                    bad.append("item access does not give the mapping's values")
+                for k in [k for k in keys if k not in subset][:3] + ["\x7fnot a key"]:
+                    try:
+                        v[k]
+                        bad.append(f"gives access to {k!r} outside the subset")
+                    except KeyError:
+                        pass
+                mapping2 = dict(mapping)
+                if subset:   # a proxy, not a copy: a value replaced in the mapping is seen through the view
+                    mapping[subset[0]] = object()
+                    if v[subset[0]] is not mapping[subset[0]] or v[subset[0]] is mapping2[subset[0]]:
+                        bad.append("does not follow the mapping it refers to")
+                for b in bad[:2]:
+                    chk.impl_failure(case, "view " + b)
+        except Exception as e:  # noqa
+            chk.impl_failure(case, f"view raised {type(e).__name__}: {str(e)[:100]}")
+        chk.case(("proxy", kind, tuple(keys), subset), nontrivial=True, tags={"part": "proxy", "proxy": kind})
+
+
+def model_graphs(kinds=None):
     import leaspy.models  # noqa
     from leaspy.models import model_factory
     from leaspy.variables.dag import VariablesDAG
     out = []
-    for name, kw in MODEL_KINDS:
+    for name, kw in (MODEL_KINDS if kinds is None else kinds):
         try:
             m = model_factory(name, **kw)
             specs = m.get_variables_specs()
@@ -280,14 +974,15 @@ def model_graphs():
     return out
 
 
-def incremental_definitions(chk, only=None):
+def incremental_definitions(chk, only=None, kinds=None):
     """The graph is a function of the definitions, not of the way the collection of definitions was assembled: the same
     definitions given in two or three instalments (the collection being read in between, as `dict(specs)` / `.items()` do) must
     give exactly the graph obtained from the definitions given at once."""
     import leaspy.models  # noqa
     from leaspy.models import model_factory
     from leaspy.variables.dag import VariablesDAG
-    for name, kw in (MODEL_KINDS if only is None else [(only[0], only[1])]):
+    for name, kw in ((MODEL_KINDS if kinds is None else kinds) if only is None else [(only[0], only[1])]):
+        kw = {k: (tuple(v) if isinstance(v, list) else v) for k, v in kw.items()}   # (a replayed case went through JSON)
         try:
             m = model_factory(name, **kw)
             specs = m.get_variables_specs()
@@ -332,8 +1027,14 @@ def run(chk: core.Check):
     rng = chk.rng
     chk.rule = ("every digraph (self-loops included) on <=3 (quick) / <=4 (thorough) labelled nodes, exhaustively; graphs referring "
                 "to unknown nodes; random graphs of 2..20 nodes with random names (hidden topological order + optional back edge / "
-                "unknown / self reference); graphs of every shipped model kind. Non-trivial = accepted graph with >=1 node having "
-                ">=2 transitive dependents, or a refused graph; distinct by (names, edges).")
+                "unknown / self reference); graphs of every shipped model kind and of loaded models; NamedVariables collections "
+                "assembled in five ways; names from classes on which sort keys differ (numeric suffixes, prefixes, non-ASCII, "
+                "blanks, long common prefixes); shapes beyond the random family (complete DAGs, stars, bipartite, layers, trees, "
+                "ladders, chains, many components, sparse graphs of 63..150 (thorough 257) nodes; the deep ones are checked by the "
+                "predicate only, see `lean_skipped`). On accepted graphs: every read view, every entry point (static methods + "
+                "path matrix, from_dict on real specifications, copies, replace), mapping types with different key orders, "
+                "order-preserving renaming, ambient dtype; inconsistent key sets. Non-trivial = accepted graph with >=1 node "
+                "having >=2 transitive dependents, or a refused graph; distinct by (names, edges).")
     cases = []  # (names, anc, tag)
     for c in core.load_corpus(PROP):
         cases.append((c["names"], {k: set(v) for k, v in c["ancestors"].items()}, "corpus"))
@@ -362,11 +1063,30 @@ def run(chk: core.Check):
             a, b = sorted(rng.sample(range(k), 2))
             anc2[names[b]].add(names[a])
         cases.append((names, anc2, "chain-shortcuts"))
-    incremental_definitions(chk)
-    mg = model_graphs()
+    thorough = chk.tier == "thorough"
+    for tag, names, anc in family_graphs(rng, thorough) + shape_graphs(rng, thorough):
+        cases.append((names, anc, tag))
+    # NamedVariables collections: the graph is the documented one however the collection was assembled
+    for _ in range(60 if thorough else 10):
+        defs = synthetic_collection(rng)
+        how = rng.choice(ASSEMBLIES)
+        cut = rng.randrange(1, len(defs))
+        g = collection_case(chk, env, defs, how, cut)
+        chk.case(("collection", repr(defs), how, cut), nontrivial=True, tags={"part": "collection", "assembled": how})
+        if g is not None:
+            cases.append((g[0], g[1], "collection-" + how))
+    for stem, names, anc, dag in loaded_model_graphs(chk):
+        cases.append((names, anc, f"loaded-{stem}"))
+        for f in predicate(names, anc, tables(dag, names))[0][:2] + view_failures(dag, names, anc, dag.variables)[:2]:
+            chk.impl_failure({"loaded_model": stem}, "graph carried by the loaded model: " + f)
+    proxy_cases(chk, 400 if thorough else 40)
+    kinds = MODEL_KINDS + (MORE_MODEL_KINDS if thorough else rng.sample(MORE_MODEL_KINDS, 4))
+    incremental_definitions(chk, kinds=kinds)
+    mg = model_graphs(kinds)
     for name, kw, g, err in mg:
         if g is None:
-            chk.note(f"model kind {name} {kw} could not be instantiated: {err}")
+            # every listed configuration builds on the unchanged tree: a refusal is a refusal of valid definitions
+            chk.impl_failure({"model": name, "kw": kw}, f"the definitions of the shipped model kind cannot be turned into a graph: {err[:160]}")
             continue
         names, anc, dag = g
         cases.append((names, anc, f"model-{name}"))
@@ -374,18 +1094,21 @@ def run(chk: core.Check):
         res = ("ok", tuple(dag.sorted_variables_names), {n: tuple(dag.sorted_children[n]) for n in names},
                {n: tuple(dag.sorted_ancestors[n]) for n in names})
         fails, _ = predicate(names, anc, res)
-        for f in fails[:2]:
+        for f in fails[:2] + view_failures(dag, names, anc, dag.variables)[:2]:
             chk.impl_failure({"model": name, "kw": kw}, "from_dict graph: " + f)
 
     lines, impl_canon, keep = [], [], []
+    lean_budget = 6e8 if thorough else 8e7     # units of `lean_units` for the shape family as a whole (~1e7 per second)
     for names, anc, tag in cases:
         res = run_impl(env, names, anc)
         fails, why = predicate(names, anc, res)
         cj = case_json(names, anc)
         for f in fails[:2]:
             chk.impl_failure(cj, f)
+        small_exh = tag.startswith("exhaustive") and (len(names) <= 3 or rng.random() < 0.02)
+        hard = small_exh or not tag.startswith("exhaustive")
         # determinism: other insertion orders of the same definitions
-        if res[0] == "ok" and len(names) > 1 and (tag.startswith("random") or tag.startswith("model") or len(names) == 3):
+        if res[0] == "ok" and len(names) > 1 and (not tag.startswith("exhaustive") or len(names) == 3):
             for f in definitions_untouched(env, names, anc, rng.choice(["set", "set", "frozenset", "mixed"]))[:2]:
                 chk.impl_failure(cj, f)
             sh = names[:]
@@ -395,17 +1118,43 @@ def run(chk: core.Check):
                 if res2 != res:
                     chk.impl_failure(cj, f"result depends on the insertion order of the definitions ({other})")
                     break
-        line, ranked = to_line(names, anc)
-        lines.append(line)
-        impl_canon.append(canon_impl(res, ranked))
-        keep.append(cj)
+        if hard and len(names) > 1:
+            more = []
+            if res[0] == "ok":
+                more += container_failures(env, names, anc, res, rng)[:2]
+                more += entry_point_failures(env, names, anc, res, rng)[:3]
+                more += ambient_failures(env, names, anc, res) if rng.random() < 0.25 else []
+            else:
+                more += refusal_entry_point_failures(env, names, anc, res, why)[:2]
+            more += renaming_failures(env, names, anc, res)[:1]
+            if rng.random() < (1.0 if len(names) <= 6 else 0.3):
+                more += inconsistent_key_failures(env, names, anc, rng)[:2]
+            for f in more:
+                chk.impl_failure(cj, f)
         nontriv = res[0] != "ok"
         if res[0] == "ok":
             nontriv = any(len(v) >= 2 for v in res[2].values())
+        fam = tag.split("-")[0] if not tag.startswith("exhaustive") else tag
+        tags = {"family": fam, "outcome": res[0], "size": min(len(names), 21) // 5 * 5}
+        if fam == "shape":
+            tags["shape"] = tag.split("-", 1)[1].rstrip("0123456789x")
+        if fam == "names":
+            tags["name_class"] = tag.split("-")[1]
+        send = True
+        if fam == "shape":
+            u = lean_units(names, anc)
+            send = u <= 5e7 and u <= lean_budget
+            if send:
+                lean_budget -= u
+            else:
+                chk.tag("lean_skipped", tag)
+        if send:
+            line, ranked = to_line(names, anc)
+            lines.append(line)
+            impl_canon.append(canon_impl(res, ranked))
+            keep.append(cj)
         chk.case((tuple(names), tuple(sorted((k, tuple(sorted(v))) for k, v in anc.items()))), nontrivial=nontriv,
-                 sample=(cj if (tag.startswith("random") and len(names) <= 5) else None),
-                 tags={"family": tag.split("-")[0] if not tag.startswith("exhaustive") else tag, "outcome": res[0],
-                       "size": min(len(names), 21) // 5 * 5})
+                 sample=(cj if (tag.startswith("random") and len(names) <= 5) else None), tags=tags)
     out = chk.model(lines)
     for cj, a, b in zip(keep, impl_canon, out):
         if a != b:
@@ -419,6 +1168,28 @@ def replay(chk: core.Check, payload):
     case = payload.get("case") or (payload.get("disagreements") or [{}])[0].get("case")
     if case and "instalments" in case:
         incremental_definitions(chk, only=(case["model"], case["kw"], case["instalments"][0]))
+        return
+    if case and "collection" in case:
+        defs = [(n, tuple(d)) for n, d in case["collection"]]
+        g = collection_case(chk, env, defs, case["assembled"], case["cut"])
+        chk.case(("collection", repr(defs)), sample=case)
+        if g is not None:
+            line, ranked = to_line(*g)
+            res = run_impl(env, *g)
+            out = chk.model([line])
+            if out[0] != canon_impl(res, ranked):
+                chk.disagree(case, canon_impl(res, ranked), out[0], "construction result")
+        return
+    if case and "proxy" in case:
+        chk.note("view cases are regenerated, not replayed: run the check with the recorded seed")
+        proxy_cases(chk, 40)
+        return
+    if case and "loaded_model" in case:
+        for stem, names, anc, dag in loaded_model_graphs(chk):
+            if stem == case["loaded_model"]:
+                for f in predicate(names, anc, tables(dag, names))[0][:2] + view_failures(dag, names, anc, dag.variables)[:2]:
+                    chk.impl_failure(case, "graph carried by the loaded model: " + f)
+        chk.case(("loaded", case["loaded_model"]), sample=case)
         return
     if not case or "names" not in case:
         chk.note("replay file has no graph case")
@@ -436,8 +1207,20 @@ def replay(chk: core.Check, payload):
         for other in (names[::-1],):
             if run_impl(env, names, anc, insertion_order=other) != res:
                 chk.impl_failure(case, f"result depends on the insertion order of the definitions ({other})")
-    line, ranked = to_line(names, anc)
-    out = chk.model([line])
-    if out[0] != canon_impl(res, ranked):
-        chk.disagree(case, canon_impl(res, ranked), out[0], "construction result")
+    if len(names) > 1:
+        more = []
+        if res[0] == "ok":
+            for _ in range(4):
+                more += container_failures(env, names, anc, res, chk.rng)[:2]
+            more += entry_point_failures(env, names, anc, res, chk.rng)[:3] + ambient_failures(env, names, anc, res)
+        else:
+            more += refusal_entry_point_failures(env, names, anc, res, expected_refusal(names, anc)[1])[:2]
+        more += renaming_failures(env, names, anc, res)[:1] + inconsistent_key_failures(env, names, anc, chk.rng)[:2]
+        for f in more:
+            chk.impl_failure(case, f)
+    if lean_units(names, anc) <= 2e8:
+        line, ranked = to_line(names, anc)
+        out = chk.model([line])
+        if out[0] != canon_impl(res, ranked):
+            chk.disagree(case, canon_impl(res, ranked), out[0], "construction result")
     chk.case(tuple(names), sample=case)
